@@ -49,7 +49,7 @@ RULE = ("random shapes (n_x, n_y <= 5, n_z <= 3, both arrangements) x requests f
         "counts 0 and larger than the group, ambiguous strings, lists of requests, malformed requests); every case "
         "constructs the real object, runs a short real simulation with the request and with 'all' (same seeds) and "
         "compares every stored value bit for bit; plus the default-count stream: storeStates='random' on N x 1 x 1 for "
-        "every N <= 260 (quick) / 2500 (thorough) and some larger N, constructed only, count compared with the model's "
+        "every N <= 260 (quick) / 900 (thorough) and a few larger N up to 1000 / 3000, constructed only, count compared with the model's "
         "defaultCount; a case is non-trivial when the request is accepted, at least one "
         "vial is recorded and at least one vial nucleates in the run; distinct by JSON form")
 EXPLANATION = ("Lean theorems about the storeStates interpretation and the masked write + differential check of masks, "
@@ -565,8 +565,9 @@ def cases(rng, tier):
     for _ in range(n):
         yield _case(rng)
     # default count int(ceil(0.1*N)) for every N of a range (and some large N)
-    top = 260 if tier == "quick" else 2500
-    for N in list(range(1, top + 1)) + [3000, 4090, 5000, 7770, 10000]:
+    # (the model evaluates the exposure vector of the batch, O(N^2): keep N moderate)
+    top = 260 if tier == "quick" else 900
+    for N in list(range(1, top + 1)) + ([500, 1000] if tier == "quick" else [1000, 1500, 2000, 3000]):
         yield dict(kind="count", arr="square", nx=N, ny=1, nz=1, seed=1, spec={"kind": "str", "str": "random"})
 
 
